@@ -111,7 +111,7 @@ TraceNext == TReset \/ TCmd \/ THttp
 TraceSpec == TraceInit /\ [][TraceNext]_tvars
 
 \* invariants of the exact level (those of the property level are PropertyLevel alone)
-ExactLevel == Exact => (RefetchIffExpired /\ CodeStricter)
+ExactLevel == Exact => (RefetchIffExpired /\ CodeStricter /\ PlainHttpServed)
 
 HW == IF l > TLCGet(1)
       THEN TLCSet(1, l) /\ TLCSet(2, [policy |-> policy, st |-> st, tls |-> tls, authed |-> authed, grants |-> grants,
